@@ -116,6 +116,28 @@ def run(eng, ctx):
                     sets = {t.id for st in h.body for t in ast.walk(st) if isinstance(t, ast.Name) and isinstance(t.ctx, ast.Store)}
                     if sets & test_vars and h.type is not None and norm(h.type) == "AttributeError":
                         witness = "loop flag set when an attribute probe raises AttributeError (finitely many attributes)"
+                    if h.type is not None and norm(h.type) == "AttributeError" and any(isinstance(x, (ast.Break, ast.Return)) for st in h.body for x in ast.walk(st)):
+                        witness = "loop left when an attribute probe raises AttributeError (finitely many attributes)"
+            # W4: counting loop - the test bounds a local that every iteration increases by a positive constant
+            if witness is None and info.get("test") is not None and not info.get("body_dead"):
+                conjs = info["test"][1] if info["test"][0] == "and" else (info["test"],)
+                for c in conjs:
+                    down = c[0] == "cmp" and c[1] in (">", ">=", "!=") and c[2][0] == "loop" and c[2][1] == lid and is_const(c[3])
+                    if down:
+                        var = c[2][2]
+                        end = (info.get("body_end") or {}).get(var)
+                        cont_ok = all(st.env.get(var) == end for k, st in info.get("ends", []) if k == "continue")
+                        dec = end is not None and end[0] == "bin" and end[2] == ("loop", lid, var) and is_const(end[3]) and isinstance(end[3][1], int) and ((end[1] == "-" and end[3][1] > 0) or (end[1] == "+" and end[3][1] < 0))
+                        if dec and cont_ok and (c[1] != "!=" or abs(end[3][1]) == 1):
+                            witness = f"counting loop: `{var}` decreases by {abs(end[3][1])} per iteration towards the constant bound of the test"
+                        continue
+                    if c[0] == "cmp" and c[1] in ("<", "<=") and c[2][0] == "loop" and c[2][1] == lid:
+                        var = c[2][2]
+                        end = (info.get("body_end") or {}).get(var)
+                        cont_ok = all(st.env.get(var) == end for k, st in info.get("ends", []) if k == "continue")
+                        bound_inv = not any(isinstance(x, tuple) and x and x[0] == "loop" and x[1] == lid for x in __import__("sa.rules.util", fromlist=["subterms"]).subterms(c[3]))
+                        if end is not None and end[0] == "bin" and end[1] == "+" and end[2] == ("loop", lid, var) and is_const(end[3]) and isinstance(end[3][1], int) and end[3][1] > 0 and cont_ok and bound_inv:
+                            witness = f"counting loop: `{var}` increases by {end[3][1]} per iteration and the test bounds it by a loop-invariant value"
             if witness:
                 ctx.ok("C04.D3", q, f"while {norm(n.test)[:40]}", found=witness, **eng.loc(f, n))
             else:
@@ -127,6 +149,8 @@ def run(eng, ctx):
                 if not okit:
                     ctx.bad("C04.D3", q, f"for ... in {norm(it)[:50]}", expected="iteration over a range / container", found="iterable of unknown finiteness", **eng.loc(f, n))
     ctx.instance("while loops with witnesses", nloops, 5)
+    # the witness of the socket refill loop rests on the receiver reporting a closed socket
+    SH.receiver_reports_close(eng, ctx, "C11.D4")
     # recursion
     comps = [c for c in eng.res.sccs(reach) if len(c) > 1 or any(x in eng.res.callees(x) for x in c)]
     ctx.check(len(comps) == 1 and comps[0] == set(eng.decoder_cycle), "C04.D3", "call graph", "recursion cycles", expected="only the decoder cycle (depth bounded by the definitions' nesting)", found=str([sorted(c) for c in comps])[:160], file="src/pyrtcm", line=0)
